@@ -63,6 +63,8 @@ pub struct IoMenu {
     pub read_pending: bool,
     pub read_err: bool,
     pub read_eof: bool,
+    /// buffering transport: accepted bytes reach the broker only when a flush completes
+    pub deliver_on_flush: bool,
 }
 
 impl IoMenu {
@@ -96,6 +98,7 @@ impl IoMenu {
             read_pending: true,
             read_err: true,
             read_eof: true,
+            deliver_on_flush: false,
         }
     }
     pub fn faults_only() -> Self {
@@ -154,6 +157,9 @@ pub struct BrokerCfg {
     pub pingresp_optional: bool,
     /// Deterministic responsive broker: only the first enabled emission is ever offered.
     pub fifo: bool,
+    /// When the broker starts sending scripted publishes it sends all that are enabled back to back,
+    /// so that several packets sit in the transport at once.
+    pub script_burst: bool,
 }
 
 impl Default for BrokerCfg {
@@ -176,6 +182,7 @@ impl Default for BrokerCfg {
             mute_pingresp: false,
             pingresp_optional: false,
             fifo: false,
+            script_burst: false,
         }
     }
 }
